@@ -43,7 +43,7 @@ var priors = []struct {
 // statement alphabet of the harness contract.
 var alphabet = []string{
 	"get k1", "get k2", "put k1 x", "put k1 y", "put k2 x", "del k1", "del k2",
-	"sel a z", "xfer C 5", "call put k2 y", "call get k1,fail", "fail",
+	"sel a z", "sel - ''", "cp k1 k2", "cnt k2 - -", "cnt k2 - ''", "cnt k2 '' z", "xfer C 5", "call put k2 y", "call get k1,fail", "fail",
 }
 
 var (
@@ -774,6 +774,7 @@ func run(tier core.Tier) *core.Report {
 	rep.Set("programs_failing_at_preexec", tot.preexecFailed)
 	rep.Set("base_transactions_accepted", tot.accepted)
 	rep.Set("base_transactions_committed", tot.committed)
+	reservedFamily(rep, tier)
 	rep.Set("mutants_judged", tot.mutants-tot.freeAccepted-tot.freeRefused)
 	rep.Set("outside_statement_mutants", fmt.Sprintf("declared read dropped / overwritten by a copy of another declared read, request without effects dropped / listed again, changed request list that pre-executes to the same effects at no higher cost: %d accepted, %d refused (recorded, not judged: what is left still declares what its own re-execution produces)", tot.freeAccepted, tot.freeRefused))
 	rep.Set("bound", fmt.Sprintf("programs of length <= %d over %d statements (get/put/del/select/transfer/nested call/fail) x %d prior states; every single mutation of read set versions, write set, transient entries, request args and limits, fee, transfer outputs", n, len(alphabet), len(priors)))
@@ -784,6 +785,15 @@ func run(tier core.Tier) *core.Report {
 }
 
 func replay(c json.RawMessage) (bool, string, error) {
+	var rc reservedCase
+	if json.Unmarshal(c, &rc) == nil && rc.Reserved.Program != "" {
+		setup()
+		v, _ := runReserved(rc)
+		if len(v) > 0 {
+			return true, v[0].Key + ": " + v[0].Summary, nil
+		}
+		return false, "reserved-request case replayed without violation", nil
+	}
 	var cs Case
 	if err := json.Unmarshal(c, &cs); err != nil {
 		return false, "", err
